@@ -168,6 +168,11 @@ pub fn scenario(idx: usize, seed: u64) -> ScenarioResult {
                 // forbidden pair: address of node 1, pin for somebody else
                 let other = nodes[rng.gen_range(2..n)].peer_id;
                 (nodes[1].addr, Some(other))
+            } else if kind == 9 && rng.gen_bool(0.5) {
+                // the party that answers at the dialed address is the caller itself
+                let me = nodes[caller].peer_id;
+                let other = nodes[(caller + 1) % n].peer_id;
+                (nodes[caller].addr, match rng.gen_range(0..3) { 0 => None, 1 => Some(me), _ => Some(other) })
             } else if with_impostor && kind < 6 {
                 (imp_addr, if rng.gen_bool(0.7) { Some(target_e) } else { None })
             } else {
